@@ -150,6 +150,18 @@ type c18World struct {
 	hooks  map[string]int
 }
 
+func (r *c18Req) ev(d *c18Delivery, e ...interface{}) {
+	r.mu.Lock()
+	d.Events = append(d.Events, e)
+	r.mu.Unlock()
+}
+
+func (r *c18Req) opID() string {
+	r.mu.Lock()
+	defer r.mu.Unlock()
+	return r.opid
+}
+
 func (w *c18World) reqByOp(op string) *c18Req {
 	w.mu.Lock()
 	defer w.mu.Unlock()
@@ -218,13 +230,13 @@ func (p *c18ReplyPub) Publish(topic string, msgs ...*message.Message) error {
 	n := p.w.notif(m)
 	topicOK := topic == c18ReplyTopic
 	d.Nid = n.ID
-	d.Events = append(d.Events, []interface{}{"publish", n.ID, n.Op, n.Pay, n.HasErr, n.Err, topicOK})
+	req.ev(d, "publish", n.ID, n.Op, n.Pay, n.HasErr, n.Err, topicOK)
 	if d.Step.PubFail {
-		d.Events = append(d.Events, []interface{}{"pubret", false})
+		req.ev(d, "pubret", false)
 		return errors.New("scripted reply publish failure")
 	}
 	err := p.w.pubsub.Publish(topic, msgs...)
-	d.Events = append(d.Events, []interface{}{"pubret", err == nil})
+	req.ev(d, "pubret", err == nil)
 	return err
 }
 func (p *c18ReplyPub) Close() error { return nil }
@@ -567,7 +579,7 @@ func (w *c18World) runCaller(req *c18Req, sendRes func(ctx context.Context) erro
 			req.Pre = append(req.Pre, r)
 		}
 		req.mu.Unlock()
-		w.rt.Stamp("c18.caller.read", req.opid)
+		w.rt.Stamp("c18.caller.read", req.opID())
 	}
 
 	if req.API == 1 {
@@ -584,7 +596,7 @@ func (w *c18World) runCaller(req *c18Req, sendRes func(ctx context.Context) erro
 				if expected == 0 {
 					time.Sleep(5 * time.Millisecond)
 				}
-				w.rt.Stamp("c18.caller.cancel", req.opid)
+				w.rt.Stamp("c18.caller.cancel", req.opID())
 				pcancel()
 			}()
 		}
@@ -602,7 +614,7 @@ func (w *c18World) runCaller(req *c18Req, sendRes func(ctx context.Context) erro
 		}()
 		err := sendRes(parent)
 		close(returned)
-		w.rt.Stamp("c18.caller.cancel", req.opid) // SendWithReply's deferred cancel has run by now
+		w.rt.Stamp("c18.caller.cancel", req.opID()) // SendWithReply's deferred cancel has run by now
 		if err != nil {
 			req.SendErr = err.Error()
 		}
@@ -640,7 +652,7 @@ func (w *c18World) runCaller(req *c18Req, sendRes func(ctx context.Context) erro
 			reads = req.Reads
 		case !ok:
 			closed = true
-			w.rt.Stamp("c18.caller.read_closed", req.opid)
+			w.rt.Stamp("c18.caller.read_closed", req.opID())
 		default:
 			record(r, pre)
 			reads++
@@ -649,10 +661,10 @@ func (w *c18World) runCaller(req *c18Req, sendRes func(ctx context.Context) erro
 	waitListener(len(req.Got))
 	switch req.End {
 	case 0:
-		w.rt.Stamp("c18.caller.cancel", req.opid)
+		w.rt.Stamp("c18.caller.cancel", req.opID())
 		cancel()
 	case 1:
-		w.rt.Stamp("c18.caller.cancel", req.opid)
+		w.rt.Stamp("c18.caller.cancel", req.opID())
 		pcancel()
 	default:
 		time.Sleep(time.Duration(w.sc.TimeoutMs)*time.Millisecond + 5*time.Millisecond)
@@ -669,7 +681,7 @@ func (w *c18World) runCaller(req *c18Req, sendRes func(ctx context.Context) erro
 				closed = true
 			case !ok:
 				closed = true
-				w.rt.Stamp("c18.caller.read_closed", req.opid)
+				w.rt.Stamp("c18.caller.read_closed", req.opID())
 			default:
 				record(r, false)
 			}
@@ -807,7 +819,7 @@ func c18RunScenario(rt *hookrt.Runtime, sc *c18Scenario, in *script.Interner) er
 			req.mu.Unlock()
 			sw := d != nil && d.Step.Swallow
 			if d != nil {
-				d.Events = append(d.Events, []interface{}{"errh", sw})
+				req.ev(d, "errh", sw)
 			}
 			if sw {
 				return nil
@@ -855,7 +867,7 @@ func c18RunScenario(rt *hookrt.Runtime, sc *c18Scenario, in *script.Interner) er
 					req.mu.Lock()
 					req.Got = append(req.Got, w.classify(r.Error, r.HandlerResult, r.NotificationMessage))
 					req.mu.Unlock()
-					w.rt.Stamp("c18.caller.read", req.opid)
+					w.rt.Stamp("c18.caller.read", req.opID())
 				}
 				return err
 			}
@@ -885,7 +897,7 @@ func c18RunScenario(rt *hookrt.Runtime, sc *c18Scenario, in *script.Interner) er
 					req.mu.Lock()
 					req.Got = append(req.Got, w.classify(r.Error, r.HandlerResult, r.NotificationMessage))
 					req.mu.Unlock()
-					w.rt.Stamp("c18.caller.read", req.opid)
+					w.rt.Stamp("c18.caller.read", req.opID())
 				}
 				return err
 			}
